@@ -504,8 +504,17 @@ class _ControlLoopRunner:
                     pass
             await self.cleanup_tasks()
 
+    def _has_scheduled_event(self) -> bool:
+        """Whether an event (a retry waiting out its delay) sits in the timer heap."""
+        return any(isinstance(t, TickAddEvent) for _, _, t in self.scheduled_wakeups)
+
     async def _process_tick(self, tick: WorkflowTick) -> StopEvent | None:
         """Process a single tick and return StopEvent if workflow completes."""
+        if isinstance(tick, TickIdleCheck) and self._has_scheduled_event():
+            # A retry waiting out its delay is pending work the broker state does not
+            # show: the run is not idle. The idle check is scheduled again once the
+            # retried event has been processed and the state is quiescent.
+            return None
         try:
             start = await self.adapter.get_now()
             self.state, commands = _reduce_tick(
